@@ -81,7 +81,9 @@ def generate(streams, tier):
                 surplus.append(["unchunked_overread", rng.randrange(1, 12)])
                 continue
             op = rng.choice(SURPLUS)
-            if op in ("get_bytes", "get_fixed_string", "get_fixed_encoded_string"):
+            if op in ("get_fixed_string", "get_fixed_encoded_string") and rng.random() < 0.5:
+                surplus.append([op, rng.randrange(0, 9), True])        # the receiver expects a padded field there
+            elif op in ("get_bytes", "get_fixed_string", "get_fixed_encoded_string"):
                 surplus.append([op, rng.randrange(0, 9)])
             else:
                 surplus.append([op])
